@@ -30,7 +30,8 @@ RULE = ('lookup: a FRESH interpreter per case (module defaults are read from the
         'and .. components — with probe files such as <root>2/x.py; the same texts for APP_ROOT from code and from '
         'DEEP_APP_ROOT through deep.start). timer: RepeatedTimer with the interval as '
         'number or text. d30: IN_APP_INCLUDE/EXCLUDE given in code as the documented comma separated str (known '
-        'finding stream). use: every DOCUMENTED setting (enumerated from the doc table; IN_APP_EXCLUDE / APP_ROOT have their own '
+        'finding stream). scale: 17-200 include/exclude prefixes with nested and sibling prefixes (code lists or DEEP_IN_APP_* text), '
+        'probe files under a parent prefix that sort after one of its nested prefixes. use: every DOCUMENTED setting (enumerated from the doc table; IN_APP_EXCLUDE / APP_ROOT have their own '
         'streams) at its USE SITE — GRPCService.start channel kind and target, LongPoll.start timer, logging.init file, '
         'AuthProvider.get_provider, is_app_frame — given in code as the native value (bool, int, float, list) and as '
         'DEEP_<KEY> text (deep.config re-imported), both routes must make the consumer do the same; third route: the native '
@@ -386,6 +387,31 @@ def g_frame(rng, d30=False, pxasym=False):
     return {'kind': 'frame', 'custom': custom, 'env': env, 'files': files, 'd30': d30, 'pxasym': pxasym}
 
 
+def g_frame_scale(rng, n=None):
+    """SCALE: 17-200 include / exclude prefixes with nesting and siblings (/srv/mono/pkg000, /srv/mono/pkg000/core/impl,
+    /srv/mono/pkg0001 …), given in code or through DEEP_IN_APP_*; probe files under a parent prefix but sorting AFTER one of
+    its nested prefixes, under siblings, under nothing.  The statement is for every list, however long."""
+    n = n or rng.choice([17, 24, 60, 200])
+    base = ['/srv/mono/pkg%03d' % i for i in range(n)]
+    nested = [b + '/core/impl' for b in rng.sample(base, max(2, n // 6))] + \
+        [b + '1' for b in rng.sample(base, 2)] + [b + '/a' for b in rng.sample(base, 2)]
+    pool = base + nested
+    rng.shuffle(pool)
+    incl = pool[:n]
+    excl = rng.sample(nested + ['/srv/mono/pkg%03d/vendor' % i for i in range(n)], rng.choice([0, 3, 17, min(60, n)]))
+    custom, env = [['APP_ROOT', {'s': rng.choice(['/nowhere', '/srv/mono', '/app'])}]], {}
+    for key, ps in (('IN_APP_INCLUDE', incl), ('IN_APP_EXCLUDE', excl)):
+        if rng.random() < 0.5:
+            custom.append([key, {'l': [{'s': p} for p in ps + (['$PX'] if key == 'IN_APP_EXCLUDE' else [])]}])
+        elif ps:
+            env['DEEP_' + key] = ','.join(ps)
+    files = []
+    for b in rng.sample(base, 4):
+        files += [b + '/core/x.py', b + '/core/impl/y.py', b + '/z.py', b + '/vendor/v.py', b + '12/w.py', b + '/b/q.py']
+    files = rng.sample(files, 8) + ['/srv/mono/other/o.py', '/elsewhere/e.py']
+    return {'kind': 'frame', 'custom': custom, 'env': env, 'files': files, 'd30': False, 'pxasym': False, 'scale': n}
+
+
 def g_boolish(rng):
     """a boolean setting as people write it in code: real bools and numbers, text, None, a callable"""
     v = rng.choice([{'b': False}, {'b': True}, {'b': False}, {'s': 'False'}, {'s': 'True'}, {'s': 'true'}, {'s': 'yes'},
@@ -568,6 +594,8 @@ def gen(rng, tier):
             yield g_frame(rng, d30=True)
         elif k % 50 == 13:
             yield g_frame(rng, pxasym=True)
+        elif k % 100 == 45:
+            yield g_frame_scale(rng)
         elif k % 50 == 34:
             yield g_ga_fault(rng)
         elif k % 10 == 4:
@@ -591,7 +619,7 @@ def corpus_seq():
 
 
 def corpus():
-    return corpus_seq() + [
+    return corpus_seq() + [g_frame_scale(__import__('random').Random(5), 17), g_frame_scale(__import__('random').Random(6), 60)] + [
         {'kind': 'frame', 'custom': [['APP_ROOT', {'s': '/app'}]], 'env': {'DEEP_IN_APP_EXCLUDE': '/app/src/vendor,/opt',
                                                                           'DEEP_IN_APP_INCLUDE': '/opt/shared'},
          'files': ['/app/src/vendor/lib/v.py', '/opt/shared/m.py', '/app/main.py', '$PX/lib/x.py', 'relative/r.py'],
@@ -787,9 +815,13 @@ def run_ga(case):
             vals = []
             for n in case['names']:
                 try:
-                    vals.append(enc(getattr(cfg, n)))
+                    got = getattr(cfg, n)
                 except Exception as e:      # noqa: B902
                     vals.append({'raised': type(e).__name__})
+                    continue
+                # (the failing plugin list of the own-getter stream is an opaque object: encoding must not iterate it —
+                #  an exception of the ENCODER is not an exception of the lookup)
+                vals.append({'o': type(got).__name__} if isinstance(got, list) and type(got) is not list else enc(got))
             # what the deep.config module saw at import and what the module functions see now
             return {'values': vals, 'exec_prefix': sys.exec_prefix,
                     'proc_env': {k: v for k, v in os.environ.items() if k.startswith('DEEP_') and k not in case['env']}}
@@ -1424,7 +1456,7 @@ def label(case, obs):
         c = dict((a, b) for a, b in case['custom'])
         for key in ('IN_APP_INCLUDE', 'IN_APP_EXCLUDE'):
             src.append('code' if key in c else ('env' if 'DEEP_' + key in case['env'] else '-'))
-        return 'frame/' + ('d30/' if case.get('d30') else '') + '+'.join(src)
+        return 'frame/' + ('d30/' if case.get('d30') else '') + ('scale/' if case.get('scale') else '') + '+'.join(src)
     return 'lookup/' + ('start' if case['start'] else 'service') + ('/timer' if case.get('timer') else '')
 
 
